@@ -25,7 +25,7 @@ ASSUMPTIONS = [
     'the value order (ties depend on storage order)',
 ]
 ANCHORS = ['Table.transform', 'Table.norm', 'Table.pa', 'Table.rankdata', '_normalize_table']
-REQUIRED = ['pa_tables_with_non_finite_cell', 'function_reads_the_table', 'second_transform_on_result', 'norm_with_repeated_ids', 'norm_signed_positive_total_vectors', 'tap_calls_checked', 'op_transform', 'op_norm', 'op_pa',
+REQUIRED = ['function_writes_metadata', 'pa_tables_with_non_finite_cell', 'function_reads_the_table', 'second_transform_on_result', 'norm_with_repeated_ids', 'norm_signed_positive_total_vectors', 'tap_calls_checked', 'op_transform', 'op_norm', 'op_pa',
             'op_rankdata', 'cli_runs', 'axis_agreement_checked',
             'layout_csc_seen', 'layout_unsorted_seen', 'zero_cells_checked']
 
@@ -222,9 +222,19 @@ def run_case(ctx, index):
             ctx.count('function_reads_the_table')
         oid0 = spec.ids(other_ax)[0] if spec.ids(other_ax) else None
 
+        # ... and a tenth annotate the metadata entry they are handed (the
+        # entry of the table being transformed: the copy's when
+        # inplace=False, so the receiver must not show the note)
+        writes_md = r.random() < .1 and spec.md(axis) is not None
+        if writes_md:
+            desc['function_writes_metadata'] = True
+            ctx.count('function_writes_metadata')
+
         def tap(v, i, m):
             log.append((np.array(v, dtype=float, copy=True), str(i),
                         None if m is None else dict(m)))
+            if writes_md and m is not None:
+                m['seen by f'] = 'id %s' % i
             if reads == 'other-axis-vector':
                 t.data(oid0, axis=other_ax, dense=True)
             elif reads == 'other-axis-sum':
@@ -240,6 +250,9 @@ def run_case(ctx, index):
         ctx.cls('function', fname)
         check_tap(ctx, log, spec, axis, desc)
         exp = expected_transform(spec, f, axis)
+        if writes_md:
+            for i_, e_ in zip(exp.ids(axis), exp.md(axis)):
+                e_['seen by f'] = 'id %s' % i_
         finish(res, exp, 'C13/transform-result/' + fname, rtol)
         changed = not snap.bits_equal(exp.D, spec.D)
         if r.random() < .4:
